@@ -5,6 +5,8 @@ from pvmon import netgen
 from pvmon.monitors import Obs, mon_c01
 from pvmon.props.common import rng_for, run_pipeflow, solver_configs
 
+MANIFEST = {'text': 'Held on every returned pipeflow of the seeded workload: nodal and global mass balances rebuilt from the user tables are at round-off (1e-16..1e-13 kg/s observed) for all component kinds, label schemes and solver configurations exercised; exploration is the honest level because the quantifier ranges over all networks.', 'note': "Trusts the monitor's own incidence reconstruction (pi valves insert a virtual node) and the 1e-10 relative bound; nets the generator does not produce are not covered.", 'technique': 'runtime monitoring: conservation oracle over result tables after every real pipeflow on generated networks'}
+
 RULE = ("seeded random gas/water networks (tree + chords, parallel branches, ju/pi valves, pumps, compressors, "
         "flow/pressure controllers, heat exchangers, storages, several ext grids, islands, out-of-service "
         "elements, five index-label schemes) built through the public create_* API and solved by the real "
